@@ -10,8 +10,8 @@ CLASSES = ["BasebandSignal", "DualPolarizationSignal", "Signal", "RadioSignal",
            "IntensitySignal", "FullStokesSignal"]
 
 DTYPES = {
-    "Signal": ["float64", "complex64", "float32", "complex128", "int16"],
-    "RadioSignal": ["float32", "complex128", "float64", "complex64"],
+    "Signal": ["float64", "complex64", "float32", "complex128", "int16", "uint8", "int32"],
+    "RadioSignal": ["float32", "complex128", "float64", "complex64", "int16"],
     "IntensitySignal": ["float32", "float64"],
     "FullStokesSignal": ["float32", "float64"],
     "BasebandSignal": ["complex64", "complex128"],
@@ -78,7 +78,7 @@ def make_values(shape, dtype, data_seed):
     elif dt.kind == "f":
         x = rng.standard_normal(shape)
     else:
-        x = rng.integers(-100, 100, size=shape)
+        x = rng.integers(0 if dt.kind == "u" else -100, 100, size=shape)
     return np.ascontiguousarray(x.astype(dt))
 
 
